@@ -1553,6 +1553,17 @@ impl ContextualHuffmanEncoder {
             return Ok(Vec::new());
         }
 
+        // Every symbol costs at least one bit, so a stream of `data.len()` bytes cannot hold
+        // more than `8 * data.len()` symbols.  Reject an impossible `output_size` before it
+        // sizes the output buffer.
+        if output_size > data.len().saturating_mul(8) {
+            return Err(ZiporaError::invalid_data(format!(
+                "Output size {} exceeds what {} encoded bytes can hold",
+                output_size,
+                data.len()
+            )));
+        }
+
         // Build decode table (block-based lookup)
         let decode_table = self.build_decode_table()?;
 
